@@ -375,6 +375,10 @@ impl Graph {
     /// 単語はつながっているしか存在していないため、単語の存在するindex + 1文字目から
     /// 末尾までを仮想ノードとして設定する
     fn complete_virtual_nodes(&mut self, input: &[char]) {
+        // 空の入力には補完する対象が無い
+        if input.is_empty() {
+            return;
+        }
         let end_of_input = input.len() - 1;
 
         // 末尾に到達している単語には設定する必要がないので無視する
